@@ -167,12 +167,24 @@ def analyse(P, B):
 
     # ---- the chain -----------------------------------------------------------------------------------------
     body = [s for s in loop.body if not (isinstance(s, ast.Expr) and ast.unparse(s).startswith("logger."))]
+    # optional preamble (fix 1fcf339): `if isinstance(value, str): value = value.encode("latin-1")` -- text settings reach
+    # value_to_string as bytes.  Reported as the table `strValuesEncoded`; any other preamble is not understood.
+    str_encoded = False
+    if len(body) == 2 and isinstance(body[0], ast.If):
+        pre = body[0]
+        if (ast.unparse(pre.test) == "isinstance(value, str)" and not pre.orelse and len(pre.body) == 1
+                and ast.unparse(pre.body[0]) == "value = value.encode('latin-1')"):
+            str_encoded = True
+            body = body[1:]
+        else:
+            raise ProfileGenError(f"unexpected statement before the if/elif chain: {ast.unparse(pre)[:80]}")
     if len(body) != 1 or not isinstance(body[0], ast.If):
         raise ProfileGenError("the settings loop body is not a single if/elif chain")
     chain, options, stmts, dt_blocks, literal_values = [], [], [], [], []
     blocks = set()
     exec_enable, exec_special = None, []
     gate_setting = None
+    uris_branch = False
     for test, br in _flatten_chain(body[0]):
         guarded = False
         cmp_ = test
@@ -190,6 +202,13 @@ def analyse(P, B):
         if any(sval == c[0] for c in chain):
             raise ProfileGenError(f"setting value {sval} is tested twice in the chain")
         chain.append((sval, guarded))
+        if member == "SETTING_DOMAINS":
+            src_br = ast.unparse(ast.Module(body=br, type_ignores=[]))
+            want = ("uris = ', '.join((uri for uri in config.uris if uri is not None))\n"
+                    "if uris:\n    http_get.set_option('uri', uris.encode('latin-1'))")
+            if src_br != want:
+                raise ProfileGenError(f"SETTING_DOMAINS branch is not the modelled one: {src_br[:160]!r}")
+            uris_branch = True
         local = {}      # block variables created inside the branch -> path (filled when attached)
         local_cls = {}
         pending = []    # (var, call kind, label, arity, value node)
@@ -455,6 +474,8 @@ def analyse(P, B):
         "gatePath": list(gate_block[0]),
         "gateSetting": gate_setting,
         "literalValues": literal_values,
+        "strValuesEncoded": str_encoded,
+        "urisBranch": uris_branch,
     }
 
 
@@ -544,6 +565,12 @@ def render(t) -> tuple[str, list]:
          "as_dict: list_props, split at the dots")
     emit("literalValues", "List (Nat × T)", [f"({s}, {_t(v)}) -- {v}" for s, v in t["literalValues"]],
          "string constants passed as value to set_option")
+    tables.append("strValuesEncoded")
+    out.append("/-- the loop starts with `if isinstance(value, str): value = value.encode('latin-1')` -/")
+    out.append(f"def strValuesEncoded : Bool := {'true' if t['strValuesEncoded'] else 'false'}\n")
+    tables.append("urisBranch")
+    out.append("/-- the SETTING_DOMAINS branch joins the non-None URIs and sets `uri` (as bytes) only when the result is non-empty -/")
+    out.append(f"def urisBranch : Bool := {'true' if t['urisBranch'] else 'false'}\n")
     out.append("end Gen.ProfileGen")
     return "\n".join(out) + "\n", tables
 
